@@ -144,11 +144,33 @@ class Atomizer:
         self.rename = dict(rename or {})
         self.versions = {}
         self.const_names = dict(const_names or {})  # name -> ("const", bool) e.g. enforce_list=False
+        self.alias = {}   # local temporary -> canonical string of the expression it was assigned (at that time)
+        self.bdefs = {}   # local temporary -> formula of the boolean expression it was assigned
 
     def name(self, n):
+        if n in self.alias:
+            return self.alias[n]
         base = self.rename.get(n, n)
         v = self.versions.get(n, 0)
         return base if v == 0 else "%s@%d" % (base, v)
+
+    def define(self, n, value):
+        """Record ``n = value`` for a simple local temporary (called *after* the versions were bumped)."""
+        if isinstance(value, (ast.BoolOp, ast.Compare)) or (isinstance(value, ast.UnaryOp) and isinstance(value.op, ast.Not)):
+            self.bdefs[n] = self._formula_no_self(value, n)
+            self.alias.pop(n, None)
+        elif isinstance(value, (ast.Call, ast.Attribute, ast.Subscript, ast.BinOp)) and not any(
+                isinstance(x, ast.Name) and x.id == n for x in ast.walk(value)):
+            self.alias[n] = "(" + self.canon(value) + ")" if isinstance(value, ast.BinOp) else self.canon(value)
+            self.bdefs.pop(n, None)
+
+    def _formula_no_self(self, value, n):
+        saved = self.bdefs.pop(n, None)
+        try:
+            return self.formula(value)
+        finally:
+            if saved is not None:
+                self.bdefs[n] = saved
 
     def canon(self, e):
         ren = {}
@@ -160,6 +182,8 @@ class Atomizer:
     def bump(self, names):
         for n in names:
             self.versions[n] = self.versions.get(n, 0) + 1
+            self.alias.pop(n, None)
+            self.bdefs.pop(n, None)
 
     def formula(self, e):
         if isinstance(e, ast.BoolOp):
@@ -171,6 +195,10 @@ class Atomizer:
             return ("const", e.value)
         if isinstance(e, ast.Name) and e.id in self.const_names:
             return self.const_names[e.id]
+        if isinstance(e, ast.Name) and e.id in self.bdefs:
+            return self.bdefs[e.id]
+        if isinstance(e, ast.Call) and isinstance(e.func, ast.Name) and e.func.id == "len" and len(e.args) == 1 and not e.keywords:
+            return neg(atom("eq(%s, 0)" % self.canon(e)))  # truthiness of a length
         if isinstance(e, ast.Compare):
             if len(e.ops) == 1:
                 return self.compare(e.left, e.ops[0], e.comparators[0])
@@ -199,6 +227,16 @@ class Atomizer:
                 f = atom("in(%s, %s)" % (self.canon(a), self.canon(b)))
             return f if isinstance(op, ast.In) else neg(f)
         ca, cb = _num(a), _num(b)
+        if ca is None and cb is not None and _is_len(a):
+            z = atom("eq(%s, 0)" % self.canon(a))
+            if (isinstance(op, ast.Lt) and cb == 1) or (isinstance(op, ast.LtE) and cb == 0) or (isinstance(op, ast.Eq) and cb == 0):
+                return z
+            if (isinstance(op, ast.Gt) and cb == 0) or (isinstance(op, ast.GtE) and cb == 1) or (isinstance(op, ast.NotEq) and cb == 0):
+                return neg(z)
+        if cb is None and ca is not None and _is_len(b):
+            flip = {ast.Lt: ast.Gt, ast.LtE: ast.GtE, ast.Gt: ast.Lt, ast.GtE: ast.LtE, ast.Eq: ast.Eq, ast.NotEq: ast.NotEq}
+            if type(op) in flip:
+                return self.compare(b, flip[type(op)](), a)
         if isinstance(op, (ast.Eq, ast.NotEq)):
             if cb is not None and ca is None:
                 f = atom("eq(%s, %s)" % (self.canon(a), _fmt(cb)))
@@ -236,6 +274,10 @@ class Atomizer:
         if isinstance(op, ast.LtE):
             return neg(atom("lt(%s, %s)" % (sb, sa_)))
         return atom(self.canon(ast.Compare(a, [op], [b])))
+
+
+def _is_len(e):
+    return isinstance(e, ast.Call) and isinstance(e.func, ast.Name) and e.func.id == "len" and len(e.args) == 1
 
 
 def _num(e):
@@ -283,17 +325,29 @@ class PathConditions:
         if isinstance(st, ast.If):
             c = self.at.formula(st.test)
             saved = dict(self.at.versions)
+            saved_alias, saved_bdefs = dict(self.at.alias), dict(self.at.bdefs)
             a1 = self.walk(st.body, conj(alive, c))
-            v1 = dict(self.at.versions)
+            v1, al1, bd1 = dict(self.at.versions), dict(self.at.alias), dict(self.at.bdefs)
             self.at.versions = dict(saved)
+            self.at.alias, self.at.bdefs = dict(saved_alias), dict(saved_bdefs)
             a2 = self.walk(st.orelse, conj(alive, neg(c)))
-            v2 = self.at.versions
+            v2, al2, bd2 = self.at.versions, self.at.alias, self.at.bdefs
             merged = {}
             for k in set(v1) | set(v2):
                 a, b = v1.get(k, 0), v2.get(k, 0)
                 merged[k] = a if a == b else max(a, b) + 1
             self.at.versions = merged
+            # a branch that cannot fall through does not contribute to what is known afterwards
+            if a1 == FALSE and a2 != FALSE:
+                self.at.versions, self.at.alias, self.at.bdefs = dict(v2), dict(al2), dict(bd2)
+            elif a2 == FALSE and a1 != FALSE:
+                self.at.versions, self.at.alias, self.at.bdefs = dict(v1), dict(al1), dict(bd1)
+            else:
+                self.at.alias = {k: v for k, v in al1.items() if al2.get(k) == v}
+                self.at.bdefs = {k: v for k, v in bd1.items() if bd2.get(k) == v}
             return disj(a1, a2)
+        if isinstance(st, (ast.Continue, ast.Break)):
+            return FALSE
         if isinstance(st, ast.Raise):
             self.raises = disj(self.raises, alive)
             self.raise_sites.append((st, alive))
@@ -327,6 +381,19 @@ class PathConditions:
                     self.raises = disj(self.raises, conj(alive, r))
                     alive = conj(alive, neg(r))
         stored = [n.id for n in ast.walk(st) if isinstance(n, ast.Name) and isinstance(n.ctx, ast.Store)]
+        pre = None
+        if isinstance(st, ast.Assign) and len(st.targets) == 1 and isinstance(st.targets[0], ast.Name):
+            # evaluate the right-hand side with the versions *before* the store
+            tmp = Atomizer(self.at.rename, self.at.const_names)
+            tmp.versions, tmp.alias, tmp.bdefs = dict(self.at.versions), dict(self.at.alias), dict(self.at.bdefs)
+            tmp.define(st.targets[0].id, st.value)
+            pre = (tmp.alias.get(st.targets[0].id), tmp.bdefs.get(st.targets[0].id))
         if stored:
             self.at.bump(stored)
+        if pre is not None:
+            n = st.targets[0].id
+            if pre[0] is not None and pre[0] != self.at.alias.get(n):
+                self.at.alias[n] = pre[0]
+            if pre[1] is not None:
+                self.at.bdefs[n] = pre[1]
         return alive
